@@ -353,3 +353,58 @@ Print Assumptions C09_pipeline_kept_is_conversion.
 Print Assumptions C09_pipeline_partition_all_histories.
 Print Assumptions C09_pipeline_forwarded_at_most_once.
 Print Assumptions C09_pipeline_refines_watcher.
+
+(* ================================================================================================================================
+   Extension X10 - PENDING EVENTS on RAW data (proofs/ClosureProofs7.v): C09_pending_event_forwarded_when_final restated on the
+   composed pipeline through the refinement.  [xInvH H s] / [xokH H o]: the header invariant and the header-consistency of the node's
+   answers, read through the abstraction; reachable states satisfy the invariant (C09_pipeline_header_invariant_reachable).
+   A raw event pending in a block whose header is H blk, whose conversion names the token bridge as sender, is handed to the signer
+   at the first height tick at which its converted message is confirmed (depth and hold time from the CONVERTED consistency level) and
+   its block is reported main-chain - whatever happened in between (other batches, dropped events, earlier ticks, re-observations) -
+   provided the watcher was not terminated by a node API error; what is handed over is, up to the abstraction, [mkxfwd] of exactly this
+   event with that header (C08_pipeline_end_to_end adds: its publication is toMessagePublication of the conversion of the raw fields) *)
+From WH Require Import proofs.ClosureProofs7.
+
+Theorem C09_pipeline_header_invariant_reachable : forall c H ops from0, Forall (xokH H) ops -> xInvH H (xfinal c (xinit from0) ops).
+Proof. intros c H ops from0 Hok. apply xInvH_final; [apply xInvH_init|exact Hok]. Qed.
+
+Theorem C09_pipeline_pending_event_forwarded_when_final : forall c H pre s height now mc hd blk u,
+  xInvH H s -> Forall (xokH H) pre -> xokH H (XTick height now mc hd) ->
+  x_dead (fst (xstep c (xfinal c s pre) (XTick height now mc hd))) = false ->
+  xpending_in (x_pending s) blk u -> C.w_sender (xu_msg u) = xc_bridge c ->
+  (forall h' n' mc' hd', In (XTick h' n' mc' hd') pre -> xconfirmed (xc_mainnet c) (xu_msg u) (H blk) n' h' = false) ->
+  xconfirmed (xc_mainnet c) (xu_msg u) (H blk) now height = true -> mc blk = Some true ->
+  exists f, In f (xo_fwd (snd (xstep c (xfinal c s pre) (XTick height now mc hd)))) /\
+            abs_fwd f = abs_fwd (mkxfwd (xu_ev u) (xu_msg u) (xu_chain u) (H blk)).
+Proof. exact pipeline_pending_forwarded_when_final. Qed.
+
+(* non-vacuity on the raw stream above: after the first poll and hand-over event 1 (consistency level 255, block 5 at height 100) is
+   pending; a tick at height 300 finds it unconfirmed (100 + 255 > 300), the tick at height 400 forwards it with the boundary values *)
+Definition px_H : Z -> header := fun _ => {| h_ts := 1000; h_height := 100 |}.
+Example C09_pipeline_liveness_hypotheses_satisfiable :
+  let s := xfinal px_c (xinit 0) (firstn 2 px_ops) in
+  let pre := [XTick 300 100000000 (fun _ => Some true) px_hd] in
+  let tick := XTick 400 100000000 (fun _ => Some true) px_hd in
+  exists b u, x_pending s = [b] /\ xpb_evs b = [u] /\ x_uid (xu_ev u) = 1 /\
+    xInvH px_H s /\ Forall (xokH px_H) pre /\ xokH px_H tick /\
+    x_dead (fst (xstep px_c (xfinal px_c s pre) tick)) = false /\
+    xpending_in (x_pending s) 5 u /\ C.w_sender (xu_msg u) = xc_bridge px_c /\
+    (forall h' n' mc' hd', In (XTick h' n' mc' hd') pre -> xconfirmed (xc_mainnet px_c) (xu_msg u) (px_H 5) n' h' = false) /\
+    xconfirmed (xc_mainnet px_c) (xu_msg u) (px_H 5) 100000000 400 = true /\
+    map (fun f => let m := xf_pub f in (x_uid (xf_ev f), m_tchain m, m_seq m, Vaa.m_cl m)) (xo_fwd (snd (xstep px_c (xfinal px_c s pre) tick)))
+      = [(1, 65535, 18446744073709551615, 255)].
+Proof.
+  cbv zeta.
+  assert (OK : forall h n, xokH px_H (XTick h n (fun _ => Some true) px_hd)).
+  { intros h n b hh E. unfold px_hd in E. injection E as <-. reflexivity. }
+  eexists. eexists. split; [vm_compute; reflexivity|]. split; [reflexivity|]. split; [reflexivity|].
+  split; [apply C09_pipeline_header_invariant_reachable; unfold px_ops; cbn [firstn]; repeat (constructor; [exact I|]); constructor|].
+  split; [constructor; [apply OK|constructor]|]. split; [apply OK|]. split; [vm_compute; reflexivity|].
+  split; [eexists; split; [vm_compute; left; reflexivity|]; split; [reflexivity|left; reflexivity]|].
+  split; [vm_compute; reflexivity|].
+  split; [intros h' n' mc' hd' [E|[]]; injection E as <- <- _ _; vm_compute; reflexivity|].
+  split; vm_compute; reflexivity.
+Qed.
+
+Print Assumptions C09_pipeline_header_invariant_reachable.
+Print Assumptions C09_pipeline_pending_event_forwarded_when_final.
